@@ -22,6 +22,10 @@ CHECKS = {
    text='From every S2/S3 start (cross-model and cross-app FK/O2O/M2M, prefix model names, single-character app label) all sequences up to depth 2 (quick) / 3 (thorough) of RenameModel, RenameAppLabel, RenameField, DeleteField, DeleteModel, DeleteApplication, AddField; after every transition no relation in the simulated signature may dangle or mention a renamed-away name, and every database foreign key must point at an existing table/column and validate.',
    note='Crashes/SQL errors of a transition are C01 business. Rows (R2) are present so foreign_key_check is meaningful.',
    design='3/C11'),
+ 'C13': dict(level='exploration', technique='exhaustive enumeration of hinted evolutions (C05 pair space through the real evolve --hint pipeline, plus constructed mutations over the value grammar); render -> exec -> compare',
+   text='Every hinted evolution text produced by Evolver(hinted=True)/get_evolution_content() for the C05 pair space and for constructed mutations over the value grammar is exec-ed in a fresh namespace like an evolution module; the loaded MUTATIONS must equal the hinted ones (str), simulate to the same signature and generate the same SQL; texts with a user-input placeholder must carry it and refuse to load or run.',
+   note='Hints that cannot be computed or applied at all belong to C05/C01.',
+   design='3/C13'),
  'C17': dict(level='fault_enumeration', technique='acceptor over the interleaved signal/statement log of every fault-free and every faulted run of the C07 enumeration plus no-op and two-app runs',
    text='A small acceptor checks every run: evolving at most once and before any change; exactly one of evolved/evolving_failed, evolved only after the version row is saved and after the last change; applying_*/creating_models paired with their counterparts unless the run fails in between; every non-bookkeeping effect statement lies between a pair; _evolve_lock restored.',
    note='Deferred index SQL for new models and PRAGMA statements are not attributed to a signal pair; migration signals are exercised by C10.',
@@ -34,6 +38,14 @@ CHECKS = {
    text='For every generated history V0..Vn (n=2 quick, 3 thorough; every evolution in the app SEQUENCE, discovered the normal way) and every start point, the database is installed fresh through the real Evolver and then upgraded along EVERY chain of later versions (direct and stepwise are the extremes); all final states must have the schema of a fresh install, equal rows per start point, exactly the SEQUENCE recorded once, a stored signature with empty Diff against the current models, and a further run must report nothing to do and execute no SQL.',
    note='Histories whose single steps are not C01-clean, and jumps whose batched AppMutator run differs from stepwise (C03), are outside the domain and counted. D3/D4 run on a deterministic stride of the histories, D2 on all.',
    design='3/C04'),
+ 'C05': dict(level='exploration', technique='exhaustive enumeration of ordered signature pairs over the field/Meta product space; diff -> hint -> simulate closure and eq-vs-diff agreement on the real code',
+   text='All ordered pairs of the single-field menu (22 x 22: every tracked attribute alone and combined, type changes, relation re-targeting, field added/removed), of the Meta menu (19 x 19 incl. reordered lists), every S1/S2/S3 start against each depth-1 successor both ways, and representation-only variants; for each pair the hinted evolution is simulated on the old signature and must leave an empty Diff; Diff(s,s)/Diff(s,clone) empty; == agrees with Diff emptiness.',
+   note='Placeholders needing user input are replaced by a domain value before simulating; model additions are created by the evolver, not hinted.',
+   design='3/C05'),
+ 'C06': dict(level='exploration', technique='exhaustive enumeration of a bounded signature value grammar through three storage channels (deserialize(serialize()), JSON OrderedDict path, real Version save/reload) plus v2->v1->v2',
+   text='Every signature of the bounded grammar (Q trees to depth 2/3 with AND/OR/XOR/negation/single-child nesting, F/Value/function/combined expressions, every Index and constraint option, Deferrable enums, special strings, None/False/0, relation targets, upgrade method x applied migrations, tuple vs list Meta) and of every generated model set must come back ==, Diff-empty both ways and byte-identical when re-serialised.',
+   note='Equality is ProjectSignature.__eq__; difference is Diff(...).is_empty(ignore_apps=False) both ways.',
+   design='3/C06'),
  'C07': dict(level='fault_enumeration', technique='exhaustive fault injection: every generated single-batch evolution x every effect-statement index, on the real Evolver pipeline against SQLite, with snapshot comparison and retry',
    text='Every reference-valid evolution of the stated alphabets and depths (optionally with a brand-new model so that model creation and deferred SQL are part of the run) is executed through Evolver+EvolveAppTask; then for EVERY effect statement k of the traced run an OperationalError is injected at k; afterwards schema, rows, recorded evolutions, stored signature and migrations must equal the pre-run state, the error must be an EvolutionExecutionError naming statement k, and a fault-free retry must reach the uninterrupted result.',
    note='Faults are raised from connection.execute_wrapper; statements on the bookkeeping tables, django_content_type and PRAGMA foreign_keys are not fault targets (outside the batch). Retry runs in the same process.',
